@@ -289,7 +289,7 @@ class NormProfile(FieldProfile):
     prop = "C15"
     name = "norm"
     predict = ("mesh", "array", "valid", "vdims", "mapping", "unit")
-    required_probes = ("update_after_norm", "norm_from_field_other_mesh")
+    required_probes = ("update_after_norm", "norm_from_field_other_mesh", "refused_norm")
     rule = (
         "one case = one seeded history (3-30 steps) mixing value updates, norm assignments (constant, per-cell array, function of "
         "position - a user function or a scalar field on a covering mesh -, zeros in places), Field(..., norm=...), and reads of norm and orientation, on fields whose vector lengths are "
@@ -307,6 +307,7 @@ class NormProfile(FieldProfile):
             "max_cells": rng.choice([12, 60, 200]),
             "mag": rng.choice(["unit", "wide", "zeros"]),
             "norm_fields": rng.random() < 0.5,
+            "p_badnorm": rng.choice([0.0, 0.05, 0.1]),
         }
 
     def table(self, rng, cfg, nvdim):
@@ -359,6 +360,16 @@ class NormProfile(FieldProfile):
             if cm is not None:
                 st.extra.setdefault("queue", []).append({"op": "F.construct", "on": out, "out": out + 1, "nvdim": 1, "dtype": None, "spec": {"t": "array", "a": {"kind": "rint", "seed": rng.randrange(2**31), "lo": 0 if rng.random() < 0.3 else 1, "hi": 7, "step": rng.choice([1.0, 0.5, 1e5])}}, "vdims": None, "unit": None})
                 return dict(cm, op="Mesh.new", out=out)
+        if rng.random() < cfg.get("p_badnorm", 0.0):
+            # refused norm - values updated so that some cells are zero - valid norm: zero cells stay zero
+            nv = h.fm.nvdim
+            queue = st.extra.setdefault("queue2", [])
+            queue += [{"op": "F.update", "on": s, "spec": {"t": "array", "a": {"kind": "rint", "seed": rng.randrange(2**31), "lo": -1, "hi": 2, "step": 1.0}}, "via": rng.choice(["update", "array"])},
+                      {"op": "F.setnorm", "on": s, "spec": {"t": "const", "v": rng.choice([5.0, 1.0, 2.5])}}]
+            return {"op": "F.setnorm_bad", "on": s, "how": rng.choice(["str", "shape", "fn", "fn"]), "k": rng.randrange(1, 400), "fault": "rejected_args"}
+        q2 = st.extra.get("queue2")
+        if q2:
+            return q2.pop(0)
         if r < 0.35:
             srcs = [x for x in fields if x != s and st.h[x].fm.nvdim == 1 and st.h[x].fm.array.dtype.kind == "f" and bool((st.h[x].fm.array >= 0).all()) and ops_field.field_covers(st, {"t": "field", "src": x}, h.box.v)] if cfg.get("norm_fields") else []
             if srcs and rng.random() < 0.5:
